@@ -20,6 +20,9 @@ type SeatOp struct {
 }
 
 func (o SeatOp) String() string {
+	if o.Kind == 'X' && o.Seat == 1 {
+		return "X1" // restore from a document without per-seat ids
+	}
 	if o.Kind == 'N' || o.Kind == 'X' || o.Kind == 'Z' || o.Kind == 'Y' {
 		return string(o.Kind)
 	}
@@ -37,6 +40,9 @@ type seatCheckpoint struct {
 	closed []bool
 	// the seats touched between the last assignment and the checkpoint: a rollback brings those moves back
 	touched []int
+	// what the table looked like when the checkpoint was taken
+	views   []seatView
+	d, s, b int
 }
 
 func viewSeats(m *sm.SeatManager) []seatView {
@@ -115,6 +121,7 @@ type seatRun struct {
 	watchSeat         int
 	watchPassed       bool
 	justArmed         bool
+	resetSeen         bool // Reset() re-creates the seat objects and leaves the position accessors on the old ones: no claim after it
 	diverged          bool // replay only: a "join any seat" picked another seat than in the recorded run
 	lostDealer        int // dealer seat a restore failed to bring back (-1: none)
 	kept              *seatCheckpoint
@@ -206,6 +213,13 @@ func (s *seatRun) apply(op SeatOp) {
 			if d := m.BigBlind(); d != nil {
 				st.BB = d.ID
 			}
+			if op.Seat == 1 {
+				// a document written by another producer: the per-seat id (redundant with the map key) is left out
+				for _, x := range st.Seats {
+					x.ID = 0
+				}
+				s.rep.Inc("class_restore_document_without_seat_ids")
+			}
 			err = m.ApplyStates(st)
 			if st.Dealer >= 0 && m.Dealer() == nil {
 				s.lostDealer = st.Dealer
@@ -233,7 +247,8 @@ func (s *seatRun) apply(op SeatOp) {
 				if m.ApplyStates(k) == nil {
 					s.kept = &seatCheckpoint{doc: k, joined: s.joined, pid: s.pid,
 						empty: append([]bool{}, s.emptyAtAssign...), closed: append([]bool{}, s.closedAfterAssign...),
-						touched: append(append([]int{}, s.touched...), -1)}
+						touched: append(append([]int{}, s.touched...), -1),
+						views: viewSeats(m), d: k.Dealer, s: k.SB, b: k.BB}
 				}
 			}
 		case 'Y':
@@ -252,6 +267,7 @@ func (s *seatRun) apply(op SeatOp) {
 		case 'Z':
 			m.Reset()
 			s.joined = 0
+			s.resetSeen = true
 		case 'J':
 			s.pid++
 			sid, err = m.Join(op.Seat, s.playerInfo())
@@ -325,6 +341,25 @@ func (s *seatRun) apply(op SeatOp) {
 		s.watchSeat = -1
 	}
 	s.justArmed = false
+	if op.Kind == 'Y' && s.kept != nil && err == nil {
+		// a rollback brings back the table of the checkpoint, however often the document is applied and
+		// whatever happened to the table in between
+		posID := func(x *sm.Seat) int {
+			if x == nil {
+				return -1
+			}
+			return x.ID
+		}
+		same := len(post) == len(s.kept.views)
+		for i := 0; same && i < len(post); i++ {
+			same = post[i] == s.kept.views[i]
+		}
+		if !same || posID(m.Dealer()) != s.kept.d || posID(m.SmallBlind()) != s.kept.s || posID(m.BigBlind()) != s.kept.b {
+			s.fail(s.prop+"/rollback-differs", "op=Y", fmt.Sprintf("after applying the kept checkpoint document again the table is %v dealer %d sb %d bb %d; when the checkpoint was taken it was %v dealer %d sb %d bb %d (occupied, active, reserved per seat)", post, posID(m.Dealer()), posID(m.SmallBlind()), posID(m.BigBlind()), s.kept.views, s.kept.d, s.kept.s, s.kept.b))
+			return
+		}
+		s.rep.Inc("rollbacks_compared_with_checkpoint")
+	}
 	if op.Kind == 'Y' {
 		s.watchSeat = -1
 		if s.kept != nil {
@@ -508,6 +543,15 @@ func (s *seatRun) onLeave(op SeatOp, pre, post []seatView, err error) {
 		if post[op.Seat].res {
 			s.fail("C18/leave-not-freed", "op=L", fmt.Sprintf("%s succeeded but the seat is still reserved", op))
 			return
+		}
+		// the seat as the position accessors show it (dealer / small blind / big blind keep pointing at it)
+		if !s.resetSeen {
+			for name, a := range map[string]*sm.Seat{"Dealer()": s.m.Dealer(), "SmallBlind()": s.m.SmallBlind(), "BigBlind()": s.m.BigBlind()} {
+				if a != nil && a.ID == op.Seat && a.Player != nil {
+					s.fail("C18/leave-not-freed", "op=L,via=position-accessor", fmt.Sprintf("%s succeeded, the seat table shows seat %d empty, but %s still shows a player sitting there", op, op.Seat, name))
+					return
+				}
+			}
 		}
 	} else if pre[op.Seat].occ {
 		s.fail("C18/leave-refused", "op=L", fmt.Sprintf("%s refused (%v) although the seat is occupied", op, err))
@@ -764,7 +808,7 @@ func genSeatHistory(r *rand.Rand, max int) []SeatOp {
 			ops = append(ops, SeatOp{Kind: 'N', Seat: 0})
 		}
 		if r.Intn(60) == 0 {
-			ops = append(ops, SeatOp{Kind: []byte{'X', 'X', 'Z', 'Y', 'Y'}[r.Intn(5)], Seat: 0})
+			ops = append(ops, SeatOp{Kind: []byte{'X', 'X', 'Z', 'Y', 'Y'}[r.Intn(5)], Seat: r.Intn(3) / 2})
 		}
 	}
 	return ops
